@@ -286,6 +286,24 @@ check("C19",
       "TLA+ exact Bezier algebra (C19_Bezier) model-checked (C19_MC); TLC trace validation of exact values, counts and domain flags (C19_Trace)",
       "DESIGN.md 6.19")
 
+check("C18",
+      "TLC proves on an integer-angle model (all angles in units of pi/(4n)) that for EVERY assignment of frames exp(i k pi/4) to the faces of small pi/4-lattice "
+      "meshes (pinwheel, strip, pillow, cube corner, cube), every order 1-6 and every tie-break of the branch matching, each interior holonomy is a whole number of quanta "
+      "and all holonomies sum to 2 pi Euler (C18_MC, up to 3.3M states); sampled fields are written into a real face-based field and flag_singularities() must return "
+      "exactly the model's edge rotations and indices. A second model (C18_Harm_MC) builds the connection Laplacian N*DN in polar form and solves the harmonic extension "
+      "exactly over the Gaussian rationals: Hermitian, gauge covariant under every re-start of faces / renumbering, equal to the scalar dual Laplacian for zero transport, "
+      "extension independent of starts and numbers when constraints are compatible - and dependent when a face carries two incompatible ones, and vanishing on the symmetric "
+      "4x4 grid (both expected counterexamples, both reproduced on the real code). Real solvers (faces and vertices, orders 1-6, cotangent / uniform weights, smoothing 0 / 2, "
+      "features on / off) run on lattice grids, their re-started and renumbered variants, box surfaces, generic triangulations, an octahedron, a cube and a torus; the trace "
+      "validator recomputes feature set, face bases, constrained faces and their constraint (one branch tangent to the single feature side), every Laplacian entry, the exact "
+      "normalised harmonic extension (smoothing off), unit modulus, constraints kept, index quantum, sum = 4 Euler, and compares.",
+      "Exact clauses only on pi/4-lattice meshes (and, for the extension, Gaussian-rational Laplacians: even order x transport); elsewhere unit modulus, constraints, quantum and "
+      "sum are judged exactly and the Hermitian property / numbering independence / the vertex-based harmonic residual are floating-point predicates evaluated by the harness "
+      "(1e-12 relative, 1e-6, 1e-6). Closed surfaces use a randomly started eigen-solver (no exact oracle). Trivial-connection and CAD-correction variants need OSQP, which "
+      "does not run in this sandbox. Four open findings (vanishing frames stay zero; two incompatible constraints on one element make the result depend on numbering).",
+      "TLA+ integer-angle holonomy model and exact Gaussian-rational harmonic extension model-checked (C18_MC, C18_Harm_MC); model fields replayed into flag_singularities; TLC trace validation of solver runs (C18_Trace)",
+      "DESIGN.md 6.18")
+
 ALL = ["C%02d" % i for i in range(1, 21)]
 
 
